@@ -57,6 +57,7 @@ ASSUMPTIONS = [
     "cbl_imm11 is only announced for jal ra, cb_imm11 for jal x0 (guaranteed by CB/CBl since commit f0b404d; the linker does not check)",
 ]
 GEN = common.LEAN / "PpciVerif" / "Gen" / "RelaxTab.lean"
+CHECK_WITHOUT_BUILD = True     # a broken proof (e.g. table_matches) still gets the failing-input search on the real code
 
 
 # ---------------------------------------------------------------------------------------------
@@ -588,6 +589,10 @@ def corpus():
     case("two-holes", [["global start", "start:", "@j a", "a:", "@j b", "b:"] + acc(1) + ["@jal x1 f", "c:"] + acc(2) +
                        ["beq x0, x0, d", "ebreak", "d:", "la x6, c", "lw x7, word", "@j e", "e:", "ebreak",
                         "f:", "c.jr x1", ".align 4", "word:", "dd 99"]], aligned={})
+    # labels in the middle of / right behind a jump that is shrunk: the hole is [2,4) and [6,8); a label AT a hole
+    # offset stays (it denotes the end of the bytes that are kept), one behind it moves with the following code
+    case("labels-at-holes", [["global start", "start:", "@j a", "a:", "@j b", "b:"] + acc(1) + ["ebreak"]],
+         extra_symbols=[["m2", "code", 2], ["m3", "code", 3], ["m4", "code", 4], ["m6", "code", 6], ["m8", "code", 8], ["mend", "code", 20]])
     # several sections in one image, jumps across them, a DEFINESYMBOL after the shrunk section
     case("multi-section", [["global start", "start:", "@j a", "a:", "@jal x1 f"] + acc(1) + ["@j g", "section code2", "g:"] + acc(2) +
                            ["@j h", "h:", "lui x6, endsym", "addi x6, x6, endsym", "ebreak", "section code3", "f:"] + acc(3) + ["c.jr x1"]],
@@ -743,6 +748,8 @@ def run_cases(ctx, cases, extra=()):
     for case in cases:
         try:
             objs = [build_object(l) for l in case["objs"]]
+            for name, sec, val in case.get("extra_symbols", []):      # labels at arbitrary offsets of object 0
+                objs[0].add_symbol(len(objs[0].symbols), name, "local", val, sec, "object", 0)
             if "csrc" in case:
                 objs.append(build_c_case(case["csrc"]))
         except Exception as e:  # noqa
